@@ -181,6 +181,7 @@ def run(c):
             meta[cid] = (bclass, b, parts, spelling)
     for cat in ("empty body", "body ending CR", "body ending LF", "body ending CRLF", "boundary with interior hyphens", "browser-style parameter", "rejection: no opening boundary", "rejection: no closing boundary", "rejection: header-less part"):
         c.need(cat)
+    core.cold_race_check(c, "C16", [cs for cs in cases if len(cs.line()) < 6000][:12], trials=30 if c.quick else 600)
     for lane in ("rel", "chk"):
         obs = core.run_cases(cases, lane=lane, poison=("multipart", "http"))
         for cs in cases:
